@@ -77,6 +77,9 @@ def _key(t):
     return repr(t)
 
 
+PHI_GUARD = {}      # repr(phi term) -> (condition, value when it holds, value when it does not) for joins written as combinators
+
+
 def mk_phi(alts):
     flat = []
     for a in alts:
@@ -1413,6 +1416,25 @@ class TermBuilder:
             return args[0][2][0]
         if name in UNWRAPS and args and args[0][0] == "adt" and args[0][2] in ("Some", "Ok") and len(args[0][3]) == 1:
             return args[0][3][0][1]
+        # `c.then(|| x).unwrap_or(d)`, `c.then_some(x).unwrap_or(d)`: x when c holds, else d.  The join is a phi like any other; the
+        # test that selects between the alternatives is remembered in PHI_GUARD for the rules that check the selecting fact.
+        if name == "unwrap_or" and len(args) == 2 and args[0][0] == "call" and args[0][1] in ("bool::then", "bool::then_some") and len(args[0][2]) == 2:
+            c, x = args[0][2]
+            if args[0][1] == "bool::then":
+                x = apply_closure(x, ()) if x[0] == "closure" else ("call", "<apply>", (x,))
+            if not (x[0] == "call" and x[1] == "<apply>"):
+                r = mk_phi([x, args[1]])
+                if r[0] == "phi":
+                    PHI_GUARD[repr(r)] = (c, x, args[1])
+                return r
+        # `a.checked_op(b).map_or(d, |v| g(v))`: g(a op b) when the operation does not overflow, else d
+        if decl == "std::option::Option::map_or" and len(args) == 3 and args[0][0] == "call" and args[0][1] == "checked" and args[2][0] == "closure":
+            y = apply_closure(args[2], (args[0][2][0],))
+            if not (y[0] == "call" and y[1] == "<apply>"):
+                r = mk_phi([y, args[1]])
+                if r[0] == "phi":
+                    PHI_GUARD[repr(r)] = (("call", "checked_ok", (args[0][2][0],)), y, args[1])
+                return r
         if name == "unwrap_or" and len(args) == 2 and args[0][0] == "adt" and args[0][2] in ("Some", "Ok") and len(args[0][3]) == 1:
             return args[0][3][0][1]
         if name == "unwrap_or" and len(args) == 2 and args[0][0] == "adt" and args[0][2] == "None":
